@@ -5,7 +5,8 @@ Interrupted, WouldBlock, other errors); TLC enumerates all scripts of up to 3 an
 specified outcome.  A second harness crate is built four times against /repo's current tree (std / no_std x hash / no hash);
 every IoLayer case is replayed against `ruzstd::io` of each build and must match the one specification.  A common
 program set (decode every model frame through decode_all, decode_blocks + collect_to_writer, the streaming reader;
-compress inputs of every content class at both levels) is executed by all four binaries; the records are compared in
+compress inputs of every content class at both levels with a fresh compressor, and with ONE compressor reused over all
+inputs -- each twice in a row, then a pass with mixed levels) is executed by all four binaries; the records are compared in
 lock step under the refinement mapping Features: identical decoded bytes / success everywhere, identical frames for the
 two hash builds and for the two no-hash builds, and no-hash frame = hash frame with the checksum flag cleared and the last
 four bytes dropped.
@@ -72,11 +73,14 @@ def check(ctx):
     fp, frames = fdlib.make_frames(ctx, "quick")
     rnd = random.Random(ctx.seed + 18)
     inputs = []
-    specs = [("empty", 0), ("one", 1), ("tiny", 5), ("text", 3000), ("runs", 70000), ("random", 5000), ("block", 131072), ("block_plus", 131073), ("two_blocks", 262144 if not q else 140000)]
+    specs = [("empty", 0), ("one", 1), ("tiny", 5), ("text", 3000), ("runs", 70000), ("random", 5000), ("skew1", 4000), ("skew2", 4000), ("skew3", 40000), ("block", 131072), ("block_plus", 131073), ("two_blocks", 262144 if not q else 140000)]
     for nm, ln in specs:
         if nm == "text":
             words = [bytes(rnd.randrange(97, 123) for _ in range(rnd.randrange(2, 8))) for _ in range(30)]
             data = b" ".join(rnd.choice(words) for _ in range(ln))[:ln]
+        elif nm.startswith("skew"):
+            # skewed histogram without matches: Huffman-coded literals, and a table the next frame could (wrongly) inherit
+            data = bytes(int(rnd.random() ** 3 * 60) for _ in range(ln))
         elif nm == "runs":
             data = b"".join(bytes([rnd.randrange(4)]) * rnd.randrange(1, 900) for _ in range(400))[:ln]
         elif nm in ("block", "block_plus", "two_blocks"):
@@ -113,15 +117,17 @@ def check(ctx):
                     why = why or "calculated checksum of frame %s differs" % a["name"]
             else:
                 fa, fb = bytes.fromhex(a["frame"]), bytes.fromhex(b["frame"])
+                if a.get("roundtrip", True) != b.get("roundtrip", True):
+                    why = "frame for input %s (%s) decodes back to the input in one build only (%s / %s)" % (a["name"], a["level"], a.get("roundtrip"), b.get("roundtrip"))
                 if hash_on:
                     if fa != fb:
-                        why = "frames for input %s (%s) differ between std and no_std" % (a["name"], a["level"])
+                        why = why or "frames for input %s (%s) differ between std and no_std" % (a["name"], a["level"])
                 else:
                     # Features refinement mapping: clear descriptor bit 2, drop the trailer
                     mapped = bytearray(fa[:-4])
                     mapped[4] &= ~0x04 & 0xFF
                     if bytes(mapped) != fb:
-                        why = "no-hash frame for input %s (%s) is not the hash frame minus checksum flag and trailer" % (a["name"], a["level"])
+                        why = why or "no-hash frame for input %s (%s) is not the hash frame minus checksum flag and trailer" % (a["name"], a["level"])
             if why:
                 bad += 1
                 if bad <= 6:
